@@ -249,8 +249,9 @@ func (d Diff) RenderPatch() (string, error) {
 				Value: e,
 			})
 		}
-		slices.Reverse(element.Add)
-		for _, e := range element.Add {
+		adds := slices.Clone(element.Add)
+		slices.Reverse(adds)
+		for _, e := range adds {
 			if isVoid(element.Add[0]) {
 				continue
 			}
